@@ -88,8 +88,39 @@ class C01(Check):
                 vals = sorted({rng.randint(0, 199) for _ in range(n)})
             return vals
 
+        def emit(op):
+            node = build_ref(pool, op) if op[0] != "leaf" else B.Leaf(op[1])
+            ops.append(op)
+            pool.append(node)
+            return len(pool) - 1
+
         nops = rng.randint(30, 60)
         for _ in range(nops):
+            if rng.random() < 0.07:
+                # approximately-equal twins: same min, max and residues mod 32 but different members, then their union,
+                # queried with divisors that do not divide 32 (an implementation must not confuse such operands)
+                if huge and rng.random() < 0.5:
+                    k = rng.choice([3, 1000, 2**20, 2**40])
+                    a = emit(["leaf", [64]])
+                    b = emit(["leaf", [32]])
+                    x = emit(["rng", a, k])
+                    y = emit(["rng", b, 2 * k])
+                else:
+                    lo = rng.randint(0, 40)
+                    mid = lo + rng.randint(1, 30)
+                    hi = mid + 32 * rng.randint(1, 3) + rng.randint(1, 30)
+                    x = emit(["leaf", sorted({lo, mid, hi})])
+                    y = emit(["leaf", sorted({lo, mid + 32 * rng.randint(1, (hi - mid - 1) // 32), hi})])
+                order = [x, y] if rng.random() < 0.5 else [y, x]
+                u = emit(["uni", order])
+                if rng.random() < 0.5:
+                    u = emit(rng.choice([["pad", u, 8], ["rep", u, 2], ["cat", [u, rng.randrange(len(pool))]]]))
+                for d in rng.sample([64, 3, 5, 96, 7, 128], 3):
+                    if est_cost(pool[u], d) <= COST_LIMIT:
+                        ops.append(["q", rng.choice(["mod", "aligned"]), u, d])
+                if pool[u].work() <= 20000:
+                    ops.append(["q", "iter", u])
+                continue
             if len(pool) < 2 or rng.random() < 0.12:
                 op = ["leaf", leaf()]
                 if rng.random() < 0.2 and len(op[1]) == 1:
